@@ -1,0 +1,16 @@
+//go:build verif
+// +build verif
+
+package unexports2
+
+import "sync"
+
+// ResetForVerif forgets the loaded symbol table so that the next lookup loads it again
+// (simulator only: lets one process exercise many load attempts).
+func ResetForVerif() {
+	symTable = nil
+	symTableLoadError = nil
+	funcAlignment = 0
+	varAlignment = 0
+	initAlignment = sync.Once{}
+}
